@@ -261,7 +261,9 @@ func (m *Map[K, V]) LoadOrStore(key K, value V) (actual V, loaded bool) {
 func (m *Map[K, V]) Range(f func(key K, value V) bool) {
 	m.m.Range(func(key, value interface{}) bool {
 		v, _ := value.(V)
-		return f(key.(K), v)
+		// Likewise for a nil key of an interface key type.
+		k, _ := key.(K)
+		return f(k, v)
 	})
 }
 func (m *Map[K, V]) Store(key K, value V) {
